@@ -18,6 +18,7 @@ Emitter interface
     E.str(width, s)                   fixed-width NUL-terminated cp1252 text, zero fill (tail after NUL don't-care on read)
     E.date(d)                         i4 seconds
     E.pad(nbytes)                     zeros on write, don't-care on read
+    E.zeros(nbytes)                   zeros on write, and read as zero values
     E.fold(seq, fn)                   for every element x of seq, in order: fn(x, E)
     E.sub(name, x)                    nested layout ``name`` of x
     E.when(cond, fn)                  fn(E) only if cond
@@ -219,8 +220,10 @@ def _btscam(v, E):
     E.f8s(3, v.translation_vector)
     E.f8s(2, v.focus)
     E.f8s(2, v.optical_center)
-    E.f8s(70, v.x_distortion_coefficients)   # zero-extended to the 70 slots of the record
-    E.f8s(70, v.y_distortion_coefficients)
+    E.f8s(v.nx, v.x_distortion_coefficients)   # up to 70 coefficients, the rest of the 70 slots is zero
+    E.zeros(8 * (70 + (-1) * v.nx))
+    E.f8s(v.ny, v.y_distortion_coefficients)
+    E.zeros(8 * (70 + (-1) * v.ny))
     E.sub("Viewport", v.view_port)
 
 
